@@ -23,6 +23,7 @@ by 0-based step number; the result is the last step.
   zip with operands of different shape: each operand whose shape differs from the NumPy broadcast
                           shape is wrapped in `broadcastTo` (chunks of the other operand on the broadcast axes)
   cumsum~<k>~<axis>       sequential `CumReduction`
+  mapblocks~<fn>~<k>      fn ∈ bcumsum (np.cumsum(b, axis=-1)) | bflip0 (b[::-1]) | bsubfirst (b - b.flat[0])
   (None/newaxis, anything else: `err unsupported`)
 
 Encodings: int lists `1,2,3` (empty `_`); chunks `2,2/3,2` (`/` between axes, empty `-`).
@@ -72,6 +73,23 @@ def binFn : Nat → Int → Int → Int
   | 3, x, y => if x < y then y else x
   | 4, x, y => if x > y then x else y
   | _, x, _ => x
+
+def blkOps : List String := ["bcumsum", "bflip0", "bsubfirst"]
+
+/-- block functions for `map_blocks`: `np.cumsum(b, axis=-1)` / `b[::-1]` / `b - b.flat[0]` (each
+the identity on rank-0 or empty blocks where the NumPy expression is) -/
+def blkFn : Nat → Arr Int → Arr Int
+  | 0, a =>
+    match a.shape.length with
+    | 0 => a
+    | r + 1 => ⟨a.shape, fun i =>
+        Dask.Reduce.fold1 (· + ·) 0 ((List.range (i.getD r 0 + 1)).map (fun t => a.get (i.set r t)))⟩
+  | 1, a =>
+    match a.shape with
+    | [] => a
+    | n :: _ => ⟨a.shape, fun i => a.get (i.set 0 (n - 1 - i.getD 0 0))⟩
+  | 2, a => ⟨a.shape, fun i => a.get i - a.get (a.shape.map (fun _ => 0))⟩
+  | _, a => a
 
 structure SrcSpec where
   shape : List Nat
@@ -206,6 +224,10 @@ def parseStep (steps : Array Expr) (step : String) :
     let axis ← ofOpt (parseInt? axis) .illformed
     let ax ← normAxis axis (shape e).length
     pure (.squeeze e ax, none)
+  | ["mapblocks", fn, k] =>
+    let f ← ofOpt (blkOps.idxOf? fn) .unsupported
+    let e ← ref k
+    pure (.mapBlocks f e, none)
   | ["cumsum", k, axis] =>
     let e ← ref k
     let axis ← ofOpt (parseInt? axis) .illformed
@@ -241,7 +263,8 @@ def parseProg (prog : String) : Except PErr Prog := do
           | some p => srcArr p.2
           | none => ⟨[], fun _ => 0⟩
         un := unFn
-        bin := binFn }
+        bin := binFn
+        blk := blkFn }
     pure ⟨e, env⟩
 
 def fmtArr (a : Arr Int) : String :=
